@@ -147,7 +147,7 @@ class Ctx:
             # after a clear a later wrong result of the same segment is a C12 matter
             if "fault" in flags and x["tag"] not in plain_fault and after(x, '"out":"unwound"'):
                 ids.add("C18")
-            if "twin" in flags and x["tag"] not in plain_twin and after(x, '"op":"clear"') and x["tag"] not in ("WF", "POOL", "GROWTH"):
+            if "twin" in flags and x["tag"] not in plain_twin and after(x, '"op":"clear"') and x["tag"] not in ("WF", "POOL", "GROWTH", "POOLCLR"):
                 ids.add("C12")
             if self.pid in ids:
                 res["mine"].append(dict(x))
@@ -379,7 +379,7 @@ def plan_key_semantics(ctx):
         ctx.model("mckey-b", "MCKey", key_consts(3, 4, cap=1), KEY_INV)
         ctx.model("mckey-c", "MCKey", key_consts(5, 2), KEY_INV)
     colls = ["keytree"] + (["keylist"] if ctx.pid == "C20" else [])
-    futs = key_cover_jobs(ctx, colls, 3, 3, [0], 3 if q else 6, export=0, limit=250 if q else None)
+    futs = key_cover_jobs(ctx, colls, 3, 3, [0], 4 if q else 6, export=0, limit=450 if q else None)
     if not q:
         futs += key_cover_jobs(ctx, ["keytree"], 4, 2, [0], 6, export=0, limit=1200)
     futs += random_jobs(ctx, colls, 2 if q else 8, {"keys": 8, "tspan": 5, "steps": 2500 if q else 12000, "seglen": 70})
@@ -414,7 +414,7 @@ def plan_ord(ctx, colls):
     if not q:
         ctx.model("mcord-c1", "MCOrd", ord_consts(7, cap=1), ORD_INV)
         ctx.model("mcord-c9", "MCOrd", ord_consts(7, cap=9), ORD_INV)
-    futs = ord_cover_jobs(ctx, colls, 5 if q else 6, [0], 2 if q else 6, limit=120 if q else None)
+    futs = ord_cover_jobs(ctx, colls, 5 if q else 6, [0], 2 if q else 6, limit=None)      # quick: the whole 5-key cover (227 states)
     if not q:
         futs += ord_cover_jobs(ctx, colls, 4, [1, 9], 2, writes=True)
     futs += random_jobs(ctx, colls, 2 if q else 8, {"keys": 10, "steps": 2500 if q else 12000, "seglen": 90})
@@ -454,8 +454,8 @@ def plan_structure(ctx):
         ctx.model("mckey-c9", "MCKey", key_consts(3, 3, cap=9), KEY_INV)
         ctx.model("mckey-b", "MCKey", key_consts(5, 2), KEY_INV)
     futs = ord_cover_jobs(ctx, ["maptree-i32", "settree-i32"], 5 if q else 6, [0] if q else [0, 9], 2 if q else 4,
-                          limit=100 if q else None)
-    futs += key_cover_jobs(ctx, ["keytree"], 3, 3, [0] if q else [0, 9], 2 if q else 4, export=0, limit=120 if q else None)
+                          limit=160 if q else None)
+    futs += key_cover_jobs(ctx, ["keytree"], 3, 3, [0] if q else [0, 9], 2 if q else 4, export=0, limit=200 if q else None)
     trees = ["maptree-i32", "settree-str", "keytree"] if q else ["maptree-i32", "maptree-str", "settree-i32", "settree-str", "keytree"]
     for coll in trees:
         base = {"keys": 12, "steps": 2000 if q else 10000, "seglen": 150}
@@ -502,8 +502,8 @@ def plan_lists(ctx):
     ctx.model("mckey-a", "MCKey", key_consts(3, 3), KEY_INV)
     ctx.model("mclist", "MCKeyList", {"Keys": keyset(3), "MaxTime": 3 if q else 4, "Faults": "FALSE"}, ["MinExpOK", "Refinement"])
     ctx.model("mcordlist", "MCOrdList", {"Keys": keyset(6 if q else 8), "StepMode": '"fixed"'}, ["Inv"], view=False)
-    futs = ord_cover_jobs(ctx, ORD_LISTS if not q else ["maplist-i32", "setlist-str"], 4, [0], 1 if q else 2, limit=40 if q else None)
-    futs += key_cover_jobs(ctx, ["keylist"], 3, 3 if not q else 2, [0], 2 if q else 4, limit=60 if q else 300)
+    futs = ord_cover_jobs(ctx, ORD_LISTS if not q else ["maplist-i32", "setlist-str"], 4, [0], 1 if q else 2, limit=None)  # 85 states
+    futs += key_cover_jobs(ctx, ["keylist"], 3, 3 if not q else 2, [0], 2 if q else 4, limit=100 if q else 300)
     futs += random_jobs(ctx, ORD_LISTS, 1 if q else 6, {"keys": 10, "steps": 2000 if q else 10000, "seglen": 90})
     futs += random_jobs(ctx, ["keylist"], 2 if q else 8, {"keys": 8, "tspan": 5, "steps": 2500 if q else 12000, "seglen": 70})
     ctx.collect(futs)
@@ -517,7 +517,7 @@ def plan_export(ctx):
     ctx.model("mckey-a", "MCKey", key_consts(3 if q else 4, 3), KEY_INV)
     if not q:
         ctx.model("mckey-b", "MCKey", key_consts(5, 2), KEY_INV)
-    futs = key_cover_jobs(ctx, ["keytree", "keylist"], 3, 3, [0], 2 if q else 4, fanout=1, export=2, limit=200 if q else None)
+    futs = key_cover_jobs(ctx, ["keytree", "keylist"], 3, 3, [0], 2 if q else 4, fanout=1, export=2, limit=260 if q else None)
     futs += random_jobs(ctx, ["keytree", "keylist"], 2 if q else 8, {"keys": 8, "tspan": 5, "steps": 2500 if q else 12000, "seglen": 25})
     futs += random_jobs(ctx, ["keytree", "keylist"], 1 if q else 4, {"keys": 40, "tspan": 12, "steps": 2000 if q else 10000, "seglen": 120}, tag="-wide")
     if ctx.pid == "C19":
@@ -815,6 +815,8 @@ def plan_c12(ctx):
             ops, t = [], t0
             for _ in range(n):
                 a, b = sorted((pt(), pt()))
+                if rnd.random() < 0.12:
+                    a, b = lo, hi           # a value over the whole domain (stored at the root place)
                 if rnd.random() < 0.55:
                     ops.append(f"i {a} {b} {t + rnd.randint(-1, 3)}")
                 else:
